@@ -23,6 +23,10 @@ LEVEL = "exploration"
 INTERFACES = {
     "none": [], "one": [0.5], "two": [0.5, 1.5], "three": [0.5, 1.5, 2.5], "four": [0.5, 1.5, 2.5, 3.5],
     "unsorted": [1.5, 0.5, 2.5], "duplicate": [0.5, 0.5, 1.5],
+    # the offending pair in every position
+    "unsorted_last": [0.5, 2.5, 1.5], "duplicate_last": [0.5, 1.5, 1.5],
+    "two_unsorted": [1.5, 0.5], "two_duplicate": [0.5, 0.5],
+    "unsorted_mid4": [0.5, 2.5, 1.5, 3.5], "duplicate_last4": [0.5, 1.5, 2.5, 2.5], "unsorted_last4": [0.5, 1.5, 3.5, 2.5],
 }
 CAPS = ["absent", "below", "at_first", "inside", "at_wf", "at_last", "above", "zero"]
 LM1 = ["absent", "below", "at_first", "above", "zero"]
@@ -222,7 +226,7 @@ def _judge_chunk(keys):
 
 
 def all_keys(ctx):
-    iks = list(INTERFACES) if not ctx.quick else ["none", "one", "two", "three", "unsorted", "duplicate"]
+    iks = list(INTERFACES) if not ctx.quick else [k for k in INTERFACES if k != "four"]
     out = []
     for ik in iks:
         for workers in (1, 2, 3, 4):
